@@ -4,7 +4,7 @@ import YaegiVerif.Spec.GoExtract
 import YaegiVerif.Generated.C18
 import YaegiVerif.Expected.C18
 /- Line-protocol front end for C18 (glue, not a proof obligation).
-   gen (provided…) newest (pkg importPath path name dest minor (tags…)) OBJ…
+   gen (provided…) newest (pkg importPath path name dest minor (tags…) (directImports…)) OBJ…
         → (y FILE) (y0 FILE) (g FILE)      y: switches from the regenerated facts; y0: from the
                                             hand-written expectation (the model the theorems are about)
    OBJ    = (o name exported KIND)
@@ -140,14 +140,15 @@ def showFile (f : File) : String :=
 
 def handle (args : List Sexp) : String :=
   match args with
-  | .atom "gen" :: provided :: newest :: .list [.atom "pkg", .atom ip, .atom path, .atom name, .atom dest, minor, tags] :: objs =>
-    (match provided.atoms?, newest.nat?, minor.nat?, tags.atoms?, objs.mapM parseObj with
-     | some prov, some newest, some minor, some tags, some objs =>
-       let p : Pkg := { importPath := ip, path := path, name := name, dest := dest, minor := minor, tags := tags, objs := objs }
+  | .atom "gen" :: provided :: newest :: .list [.atom "pkg", .atom ip, .atom path, .atom name, .atom dest, minor, tags, direct] :: objs =>
+    (match provided.atoms?, newest.nat?, minor.nat?, tags.atoms?, objs.mapM parseObj, direct.atoms? with
+     | some prov, some newest, some minor, some tags, some objs, some direct =>
+       let p : Pkg := { importPath := ip, path := path, name := name, dest := dest, minor := minor, tags := tags, objs := objs,
+                        directImports := direct }
        let run (K : Knobs) : String := if formatFails K p then "(err \"extract\")" else showFile (genY K p)
        "(y " ++ run (knobsOf Generated.C18.facts) ++ ") (y0 " ++ run (knobsOf Expected.C18.facts) ++
          ") (g " ++ showFile (Spec.wrapper prov newest p) ++ ")"
-     | _, _, _, _, _ => "bad-op")
+     | _, _, _, _, _, _ => "bad-op")
   | _ => "bad-op"
 
 end YaegiVerif.Driver.C18
